@@ -502,6 +502,9 @@ def run_property(prop: str, tier: str, seed: int, only_facets=None, scale: float
         # The n_quick numbers of the facets are a 5-10 s budget (used as such by the mutant protocol);
         # the registered quick check runs three times as many generated cases (10-35 s per property).
         scale *= float(os.environ.get("VERIF_QUICK_SCALE", "3"))
+    else:
+        # thorough tier: four times the per-facet n_thorough numbers (5-10 min per property on 16 cores)
+        scale *= float(os.environ.get("VERIF_THOROUGH_SCALE", "4"))
     repo = prepare_import_path()
     try:
         assert_tree(repo)
